@@ -24,6 +24,19 @@ def _rtol(est):
 
 
 def run_panel(job):
+    """An exception raised by cola for a configuration is a refusal, not an estimate: nothing to judge about its statistics (and not
+    a harness failure either); counted as `panel_configs_raised_by_cola`."""
+    from .interp import _raised_in_harness
+    try:
+        return _run_panel(job)
+    except Exception as e:  # noqa
+        if _raised_in_harness(e):
+            raise
+        return {"status": "ok", "stats": {"panel_configs": 1, "panel_configs_raised_by_cola": 1,
+                                          "exc:" + type(e).__name__: 1}, "fired": {}, "violation": None}
+
+
+def _run_panel(job):
     from cola.linalg.trace.diagonal_estimation import hutchinson_diag_estimate
     cfg = job["config"]
     ctx = Ctx({"property": "C17", "steps": [], "run_seed": 0, "config": {}})
